@@ -88,7 +88,7 @@ def strategy(draw):
         "indels": draw(st.integers(0, 3)) == 0, "p_lowmapq": draw(st.sampled_from([0.0, 0.3])),
         "min_mapq": draw(st.sampled_from([0, 0, 1, 20, 30, 60])),
         "procs": draw(st.sampled_from([1, 1, 1, 2, 3, 16])), "chunk": draw(st.sampled_from([1, 2, 7, 100, 5000])),
-        "big_bed": False,
+        "big_bed": False, "unplaced": draw(st.sampled_from([0, 0, 2])),
     }
 
 
@@ -177,6 +177,20 @@ def write_bam(path, case, reads):
             a.next_reference_start = r["pos"] if r["flag"] & 1 else -1
             a.template_length = 0
             a.query_qualities = pysam.qualitystring_to_array("I" * r["len"])
+            out.write(a)
+        # reads without contig or position (an unaligned pair) close a coordinate-sorted BAM, as samtools sort leaves
+        # them; they are never counted (seeded change C09p took the step to tid -1 for "not sorted" in small files)
+        for k in range(case.get("unplaced", 0)):
+            a = pysam.AlignedSegment()
+            a.query_name = "unplaced%d" % (k // 2)
+            a.query_sequence = "A" * 50
+            a.flag = 4 | 1 | 8 | (64 if k % 2 == 0 else 128)
+            a.reference_id = -1
+            a.reference_start = -1
+            a.mapping_quality = 0
+            a.next_reference_id = -1
+            a.next_reference_start = -1
+            a.query_qualities = pysam.qualitystring_to_array("I" * 50)
             out.write(a)
     pysam.index(path)
 
